@@ -254,11 +254,11 @@ fn run_case<H: HK>(case: &C11Case, ctx: &Ctx) -> Result<CaseInfo, Violation> {
                     crate::model::apply(H::KIND, &r.model.cur, &w.ovs[o].batch) == w.ovs[o].map && w.ovs[o].anchor_version != w.store_version
                 };
                 if gray {
-                    // excluded by construction, counted
-                    w.ovs[o].handle = Some(handle);
-                    info.bump("excluded_kf_c12_1_gray_zone_attempts");
+                    // either outcome is permitted here (the statement leaves this corner open; the API docs say
+                    // the changeset "may be invalidated"), but whichever it is must be exact. FX-C12-2: this used to be
+                    // accepted with a corrupted store as the result and was excluded from generation until repaired.
+                    info.bump("gray_zone_overlay_commits");
                     gray_seen = true;
-                    continue;
                 }
                 let _ = root_matches;
                 let (pre_map, pre_seqn, pre_root) = (r.model.cur.clone(), r.model.seqn, root_of(H::KIND, &r.model.cur));
@@ -271,7 +271,7 @@ fn run_case<H: HK>(case: &C11Case, ctx: &Ctx) -> Result<CaseInfo, Violation> {
                     Err(f) if f.kind == FailKind::Panic => return Err(v(step, format!("overlay commit panicked: {}", f.msg))),
                     Ok(false) => return Err(v(step, "overlay try_commit_nonblocking handed the overlay back although no session was alive")),
                     Ok(true) => {
-                        if !must_ok {
+                        if !must_ok && !gray {
                             return Err(v(
                                 step,
                                 format!(
